@@ -477,8 +477,9 @@ fn walk_refs(out: &mut Out, r: Ref<'_>, case: &str, depth: usize) {
     out.oracle_checks += 1;
     match (r.list_iter(), v.list_iter()) {
         (Some(di), Some(vi)) => {
-            let d: Vec<Option<String>> = { let mut it = di; (0..10_000).map_while(|_| { let x = it.next(); if x.is_none() && it.is_empty() { None } else { Some(x.map(|y| enc_value(y.value()))) } }).collect() };
-            let w: Vec<Option<String>> = { let mut it = vi; (0..10_000).map_while(|_| { let x = it.next(); if x.is_none() && it.is_empty() { None } else { Some(x.map(enc_value)) } }).collect() };
+            // each step: what peek() and is_empty() say before next(), then the item
+            let d: Vec<(Option<String>, bool, Option<String>)> = { let mut it = di; (0..10_000).map_while(|_| { let pk = it.peek().map(|y| enc_value(y.value())); let em = it.is_empty(); let x = it.next(); if x.is_none() && it.is_empty() { None } else { Some((pk, em, x.map(|y| enc_value(y.value())))) } }).collect() };
+            let w: Vec<(Option<String>, bool, Option<String>)> = { let mut it = vi; (0..10_000).map_while(|_| { let pk = it.peek().map(enc_value); let em = it.is_empty(); let x = it.next(); if x.is_none() && it.is_empty() { None } else { Some((pk, em, x.map(enc_value))) } }).collect() };
             if d != w { out.fail("accessors", "Datum list_iter and Value list_iter expose different structure".into(), case.to_string(), json!({"datum": d, "value": w})); }
         }
         (None, None) => {}
@@ -544,6 +545,13 @@ pub fn run_c10(tier: &str, seed: u64, out: &mut Out) {
             }
             let v: Value = d.clone().into();
             if &v != d.value() { out.fail("accessors", "Value::from(datum) differs from datum.value()".into(), case, json!({})); }
+        }
+        // the full accessor walk (list_iter with peek / is_empty / next, vector_iter, as_pair) against the model's
+        for src in srcs_for(&text) {
+            if let Ok(res) = parse_datum(src, ro, &text) {
+                let nontrivial = res.is_ok();
+                out.case(format!("refwalk {} {} {}", src.name(), ro.code(), bytes_code(&text)), refwalk_res(&res), nontrivial);
+            }
         }
     }
 }
